@@ -19,7 +19,8 @@ type Pkg struct {
 	Imports []int `json:"imports,omitempty"` // indices of lower-numbered packages
 
 	DepFunc    int  `json:"dep_func,omitempty"`   // 0: F not deprecated; 1: deprecated; 2: same-length non-marker comment
-	DepMethod  bool `json:"dep_method,omitempty"` // method T.M deprecated
+	DepMethod  int  `json:"dep_method,omitempty"` // method T.M: 0 not deprecated; 1 deprecated; 2 same-length non-marker comment
+	RecvMix    bool `json:"recvmix,omitempty"`    // with Test: the in-package test file adds a method with another receiver name (ST1016 only in the test variant) and the main file carries a //lint:ignore ST1016 directive
 	Pure       bool `json:"pure,omitempty"`       // Pure has no side effect (purity fact)
 	NonNil     bool `json:"nonnil,omitempty"`     // Mk never returns nil (nilness fact)
 	Local      int  `json:"local,omitempty"`      // bit set of local problems
@@ -92,8 +93,14 @@ func (m *Mod) renderPkg(i int, out map[string]string) {
 	w("}\n\n")
 	w("// New returns a T.\nfunc New() *T { return &T{x: %d} }\n\n", 1+p.Body)
 	w("// M is a method.\n")
-	if p.DepMethod {
+	switch p.DepMethod {
+	case 1:
 		w("//\n// Deprecated: use N.\n")
+	case 2:
+		w("//\n// Deprecatex: use N.\n")
+	}
+	if p.RecvMix {
+		w("//\n//lint:ignore ST1016 generated exception\n")
 	}
 	w("func (t *T) M() int { return t.x }\n\n")
 	w("// N is a method.\nfunc (t *T) N() int { return t.x + 1 }\n\n")
@@ -117,6 +124,11 @@ func (m *Mod) renderPkg(i int, out map[string]string) {
 	} else {
 		w("var flag bool\n\n// Mk makes an Iface.\nfunc Mk() Iface {\n\tif flag {\n\t\treturn nil\n\t}\n\treturn impl{}\n}\n\n")
 	}
+	// Via re-exports a type of the first dependency, so that importers of
+	// this package reach facts of a package they do not import themselves.
+	if len(p.Imports) > 0 {
+		w("// Via returns a value of a type of a dependency.\nfunc Via() *%s.T { return %s.New() }\n\n", pkgName(p.Imports[0]), pkgName(p.Imports[0]))
+	}
 	// Use: exercises facts of dependencies
 	w("// Use uses the dependencies.\nfunc Use() int {\n\tn := 0\n")
 	for _, d := range p.Imports {
@@ -126,6 +138,10 @@ func (m *Mod) renderPkg(i int, out map[string]string) {
 		w("\t%s.Pure(1, 2)\n", dn)
 		w("\tif %s.Mk() == nil {\n\t\tn++\n\t}\n", dn)
 		w("\tn += %s.Use()\n", dn)
+		if len(m.Pkgs[d].Imports) > 0 {
+			// a method of a package two import edges away
+			w("\tn += %s.Via().M()\n", dn)
+		}
 	}
 	w("\treturn n\n}\n\n")
 	// Local problems
@@ -164,7 +180,11 @@ func (m *Mod) renderPkg(i int, out map[string]string) {
 	out[name+"/"+name+".go"] = b.String()
 
 	if p.Test {
-		out[name+"/"+name+"_test.go"] = fmt.Sprintf("package %s\n\n// CheckHelper uses helper.\nfunc CheckHelper() int { return helper() }\n\nfunc testOnlyUnused() int { return 1 }\n", name)
+		extra := ""
+		if p.RecvMix {
+			extra = "\n// SetX is declared in the test file with another receiver name.\nfunc (x *T) SetX(v int) { x.x = v }\n"
+		}
+		out[name+"/"+name+"_test.go"] = fmt.Sprintf("package %s\n\n// CheckHelper uses helper.\nfunc CheckHelper() int { return helper() }\n\nfunc testOnlyUnused() int { return 1 }\n%s", name, extra)
 	}
 	if p.XTest {
 		out[name+"/x_test.go"] = fmt.Sprintf("package %s_test\n\nimport %q\n\n// CheckF uses F.\nfunc CheckF() int { return %s.F() }\n", name, m.Path+"/"+name, name)
@@ -249,7 +269,7 @@ func Generate(r *Rng, npkg int, shape string, tests bool) *Mod {
 	for i := 0; i < npkg; i++ {
 		p := Pkg{
 			DepFunc:    []int{0, 1, 1, 2}[r.N(4)],
-			DepMethod:  r.P(500),
+			DepMethod:  []int{0, 1, 1, 2}[r.N(4)],
 			Pure:       r.P(600),
 			NonNil:     r.P(600),
 			Local:      r.N(32),
@@ -262,6 +282,7 @@ func Generate(r *Rng, npkg int, shape string, tests bool) *Mod {
 		if tests {
 			p.Test = r.P(500)
 			p.XTest = r.P(300)
+			p.RecvMix = p.Test && r.P(400)
 		}
 		switch shape {
 		case "chain":
